@@ -451,6 +451,10 @@ def c18(tier, seed):
     }
     # the file on which `similar`'s compaction leaves stale index fields (D41, fix a2545ec): always in the pool
     specials["inputs/table-6.lua (stale indices)"] = open(os.path.join(corpus, "inputs", "table-6.lua"), encoding="utf-8").read()
+    # ... and the one whose *first* operation is a Delete that compaction shifted (stale new index on the leading
+    # operation), plus a synthetic file of that shape
+    specials["inputs-full_moon/strings-escape.lua (stale leading delete)"] = open(os.path.join(corpus, "inputs-full_moon", "strings-escape.lua"), encoding="utf-8").read()
+    specials["leading-delete-then-duplicate"] = "\n\nprint(\"hello\")\nprint( \"hello\" )\nlocal x = 1\nlocal y = 2\nreturn x + y\n"
     cases = [(os.path.relpath(p, corpus), open(p, encoding="utf-8").read()) for p in pool] + list(specials.items())
     n = 0
     multi_inserts = []
